@@ -87,6 +87,8 @@ class CallMixin:
         vars_, guard, bound = self.iter_binder(it, st, ctx, gen.target)
         mark = fresh_mark()
         st2 = st.copy()
+        st2.in_binder = True
+        st2.binder_vars = list(st.binder_vars) + list(vars_)
         st2.writes = None
         self.bind_target(gen.target, bound[0], st2)
         ctx.binders.append((vars_, guard))
@@ -123,6 +125,8 @@ class CallMixin:
         gen = node.generators[0]
         if it.ty.kind not in ("list", "enumerate", "zip", "strlist", "range"):
             raise Unsupported("list comprehension over %r (order is not determined)" % it.ty)
+        if elt.ty.kind in ("strlist", "gen", "keys", "items", "values", "enumerate", "zip", "range"):
+            raise Unsupported("list comprehension whose elements are %r (line %s)" % (elt.ty, node.lineno))
         ety = elt.ty if elt.ty.kind not in ("tuple", "none", "fun") and elt.none is None else VAL
         j = vars_[0]
         et = self.coerce(elt, ety, st).t
